@@ -530,6 +530,18 @@ def context_features():
     subtree_set(h.Span, lambda e: e.set_space(m.WhiteSpaceHandling.DEFAULT))
     h.Text.set_text("  two  spaces  ")
   out.append(Feature("space:default-under-preserve", dflt_under))
+
+  def dflt_under2(h, cfg):
+    subtree_set(h.P, lambda e: e.set_space(m.WhiteSpaceHandling.PRESERVE))
+    subtree_set(h.Span, lambda e: e.set_space(m.WhiteSpaceHandling.DEFAULT))
+    h.Text.set_text("  two  spaces  ")
+  out.append(Feature("space:default-under-preserve-under-default", dflt_under2))
+
+  def lang_nested(h, cfg):
+    subtree_set(h.Div, lambda e: e.set_lang("fr"))
+    subtree_set(h.Span, lambda e: e.set_lang("en"))
+    subtree_set(h.Rt, lambda e: e.set_lang(""))
+  out.append(Feature("lang:nested-differences", lang_nested, note="document en, div subtree fr, span back to en, rt without language"))
   for k in ["Body", "Div", "P", "Span", "Ruby"]:
     def f(h, cfg, k=k):
       r2 = m.Region("r2", h.doc)
